@@ -109,6 +109,9 @@ def gen_scenarios(rng, tier):
                 S.append(Scenario(op, rm, rng.random() < 0.5, "file" if op == "d" else "test", 2, ["text", "holes"], corr, [False, False], []))
     S.append(Scenario("c", True, False, "file", 2, ["text", "rand"], ["none", "none"], [False, True], []))
     S.append(Scenario("d", True, False, "stdout", 2, ["text", "text"], ["none", "flip"], [False, False], []))
+    # output device full: several inputs into one stdout / one input; the error may only surface when the output is flushed at close
+    for op, n in (("d", 2), ("d", 1), ("c", 2), ("c", 1)):
+        S.append(Scenario(op, False, rng.random() < 0.5, "stdout", n, ["text", "holes"][:n], ["none"] * n, [False, False], [">full"]))
     # threads / long / levels / explicit -o
     for extra in (["-T2"], ["--long=20"], ["-19"], ["-T2", "--long"], ["--sparse"], ["--no-sparse"], ["-o"]):
         for op in ("c", "d"):
@@ -178,6 +181,8 @@ def cmdline(cli, sc, srcs, dsts):
     if sc.out == "stdout":
         a.append("-c")
     for e in sc.extra:
+        if e == ">full":
+            continue
         if e == "-o":
             a += ["-o", dsts[0]]
         else:
@@ -276,10 +281,14 @@ def run_scenario(ck, cli, zfile, sc, d, sizes, kill=False, maxkill=0):
     shutil.copytree(d, snap)
     cmd = cmdline(cli, sc, srcs, dsts)
     st = os.path.join(os.path.dirname(d), "strace.txt")
+    full = ">full" in sc.extra
+    sink = open("/dev/full", "wb") if full else subprocess.DEVNULL
     p = subprocess.run(["strace", "-f", "-o", st, "-e", "trace=" + SYSCALLS, "-s", "0"] + cmd, cwd=d, stdin=subprocess.DEVNULL,
-                       stdout=subprocess.DEVNULL, stderr=subprocess.PIPE, timeout=120)
+                       stdout=sink, stderr=subprocess.PIPE, timeout=120)
+    if full:
+        sink.close()
     evs = [{"e": "scenario", "op": {"c": "compress", "d": "decompress", "t": "test"}[sc.op], "rm": sc.rm, "force": sc.force, "out": sc.out,
-            "ok": oks + [True] * (2 - len(oks)), "dstPre": list(sc.dstPre[:2]), "n": sc.n, "cmd": " ".join(cmd[1:])}]
+            "ok": oks + [True] * (2 - len(oks)), "dstPre": list(sc.dstPre[:2]), "n": sc.n, "full": full, "cmd": " ".join(cmd[1:])}]
     evs += parse_strace(st, srcs, dsts)
     if not any(e["e"] == "exit" for e in evs):
         evs.append({"e": "exit", "rc": p.returncode if p.returncode >= 0 else 128 - p.returncode})
